@@ -35,6 +35,26 @@ impl Abs for SBytes {
     }
 }
 
+/// A byte buffer read through deserialize_bytes (the borrowing entry point) with a visitor that copies.
+#[derive(Debug, Clone, PartialEq)]
+pub struct RefBytes(pub Vec<u8>);
+impl Serialize for RefBytes {
+    fn serialize<S: Serializer>(&self, s: S) -> Result<S::Ok, S::Error> { s.serialize_bytes(&self.0) }
+}
+struct RefBytesV;
+impl<'de> Visitor<'de> for RefBytesV {
+    type Value = RefBytes;
+    fn expecting(&self, f: &mut fmt::Formatter) -> fmt::Result { f.write_str("bytes") }
+    fn visit_borrowed_bytes<E: de::Error>(self, v: &'de [u8]) -> Result<RefBytes, E> { Ok(RefBytes(v.to_vec())) }
+}
+impl<'de> Deserialize<'de> for RefBytes {
+    fn deserialize<D: Deserializer<'de>>(d: D) -> Result<Self, D::Error> { d.deserialize_bytes(RefBytesV) }
+}
+impl Abs for RefBytes {
+    fn to_abs(&self) -> Value { json!({"k":"bytes","b":bytes(&self.0)}) }
+    fn gen(rng: &mut StdRng, d: u32) -> Self { RefBytes(SBytes::gen(rng, d).0) }
+}
+
 /// A string written through collect_str (Display) and read through deserialize_str with a visitor that accepts borrowed and transient strings.
 #[derive(Debug, Clone, PartialEq)]
 pub struct DispStr(pub String);
@@ -193,6 +213,7 @@ pub fn exercise<T: SFull>(name: &str, rng: &mut StdRng, sink: &mut crate::gen::S
 /// Comparison for replayed cases: the specification's bytes must deserialise to the specification's value, consuming them exactly,
 /// and (for the reference encoding) the value must serialise back to the same bytes.
 pub fn matches(obs: &Value, exp: &Value) -> bool {
+    if obs["p"] == "run" && obs["dec_ok"] == false && exp["must"] == false { return true }      // an input the shape may refuse
     obs["p"] == "run" && obs["dec_ok"] == true && obs["dec"] == exp["dec"] && obs["pos"] == exp["pos"]
         && obs["reenc_ok"] == true && (exp["reenc"].is_null() || obs["reenc"] == exp["reenc"])
 }
